@@ -7,7 +7,7 @@ from vf import gen, plumbing
 
 PID = "C13"
 ANCHORS = ["pyoma2.functions.fdd:SD_est"]
-REQUIRED_MONITORS = ["grid+shape", "welch-equivalence(per)", "hermitian-psd(per)", "bilinear+g2(per)", "bilinear+g2(cor)", "parseval(per)",
+REQUIRED_MONITORS = ["returned arrays are the caller's", "grid+shape", "welch-equivalence(per)", "hermitian-psd(per)", "bilinear+g2(per)", "bilinear+g2(cor)", "parseval(per)",
                      "gain-delay(per)", "gain-delay(cor)", "sinusoid-ratio(per)"]
 ALL_STATES = ["pov=0", "pov=0.25", "pov=0.5", "pov=0.75", "ref=all", "ref=subset", "nxseg not a power of two", "nxseg with a prime factor > 5", "negative gain", "1 channel"]
 REQUIRED_STATES = ["pov=0", "pov=0.25", "pov=0.75", "ref=subset", "negative gain", "nxseg with a prime factor > 5", "odd nxseg", "arguments given by position", "record amplitude below 1e-5", "integer-stored records"]
@@ -131,6 +131,16 @@ def run_welch(ctx, rng):
             continue
         ctx.check(np.allclose(f, np.arange(nf) * fs / nx, rtol=1e-12, atol=0), f"{method}:grid",
                   lambda: f"{method}: frequency grid is not k*fs/nxseg (fs={fs:.6g}, nxseg={nx}): f[1]={f[1]!r}, f[-1]={f[-1]!r}")
+        # what a caller does with the arrays he got (the axis converted to rad/s, the matrix scaled - in place) is his own business: the next
+        # estimate with the same settings is again the estimate of its data on the grid k*fs/nxseg
+        f_keep, S_keep = np.array(f, copy=True), np.array(S, copy=True)
+        f *= 2 * np.pi
+        S *= 0.5
+        f_n, S_n = fdd.SD_est(Y.copy(), Yr.copy(), 1 / fs, nx, method=method, pov=pov)
+        ctx.ev("returned arrays are the caller's")
+        ctx.check(np.array_equal(f_n, f_keep) and np.array_equal(S_n, S_keep), f"{method}:later_estimate_follows_in_place_change_of_an_earlier_result",
+                  lambda: f"{method}: after the caller changed the returned freq / Sy in place, an identical second call returns f[1]={np.ravel(f_n)[1]!r} (grid line {f_keep[1]!r})")
+        f, S = f_keep, S_keep
         # bilinearity and g^2
         ctx.ev(f"bilinear+g2({method})")
         a, b = rng.uniform(-3, 3, 2)
